@@ -30,7 +30,7 @@ for _p in ("C02", "C03", "C13", "C16", "C20"):
 WQ, WT = (25, 60), (1000, 120)        # world families: (sequences, steps per sequence) quick / thorough
 
 # a divergence on a world step counts against the properties whose obligations that operation kind carries
-# (DESIGN §5, attribution by stage); query lines likewise
+# (DESIGN §4, attribution by operation kind); query lines likewise
 KIND_PROPS = {
     "pair_swap":    {"C01", "C02", "C03", "C06", "C07", "C09", "C10", "C12", "C14"},
     "tok_send":     {"C01", "C02", "C03", "C04", "C06", "C07", "C10", "C11", "C12", "C13", "C14", "C20"},
@@ -74,8 +74,8 @@ def counts_against(pid, case):
         return True
     return pid in KIND_PROPS.get(k, {pid})
 
-WORLD_RULE = ("operation sequences on a cw-multi-test world (factory, router, 3 cw20s, 6 denoms with colliding names, 2-5 pairs of all kinds, "
-              "5 actors incl. bystanders with open allowances): mostly-valid operations generated against the live state plus a malformed stream "
+WORLD_RULE = ("operation sequences on a cw-multi-test world (factory, router, 3 cw20s + upper-case aliases, 13 denoms (colliding under concatenation, equal to token addresses, long shared prefixes, case variants), 2-5 pairs of all kinds, "
+              "6 accounts incl. bystanders with open allowances): mostly-valid operations generated against the live state plus a malformed stream "
               "(wrong asset/amount/funds, forged Receive, unauthorised callers, malformed routes); every step's result and the full changed ledger are compared with the model; "
               "non-trivial = implementation accepted the step; distinct by line hash")
 
@@ -162,13 +162,13 @@ PLAN = {
     },
     "C17": {
         "families": [world("factory", WQ, WT)],
-        "rule": WORLD_RULE + "; factory family: up to 17 pairs over 6 denoms, decimals re-registrations interleaved with creations",
+        "rule": WORLD_RULE + "; factory family: up to 47 pairs over 13 denoms and 3 tokens, decimals re-registrations interleaved with creations",
         "assumptions": COMMON_ASSUME + WORLD_ASSUME,
     },
     "C18": {
         "families": [fn("text", 6000, 1000000)],
         "rule": "all strings over {0,1,5,9,.,x,-} up to length 5 (7 in thorough) exhaustively through from_str/try_from/serde; structured 256-bit values (limb boundaries, powers of ten, leading/trailing fractional zeros, maxima) through to_string / round trips / JSON; 77-80 digit wholes; 17/18/19 fractional digits; width conversions",
-        "assumptions": COMMON_ASSUME + ["serde-json-wasm string encoding/decoding as modelled in Halo/Text.lean (no escapes occur in numerals)"],
+        "assumptions": COMMON_ASSUME + ["serde-json-wasm string encoding/decoding as modelled in Halo/Text.lean (JSON escapes are modelled (serde-json-wasm's unescaper) and generated)"],
     },
     "C19": {
         "families": [fn("read_pairs", 3000, 100000), world("factory", WQ, WT)],
